@@ -259,6 +259,9 @@ pub enum GNode {
     Note(Place, String),
     /// one comment holding several complete tags (text between them), e.g. same-comment blocks
     Multi(Place, Vec<String>),
+    /// nested blocks whose start tags share one comment (and so one line): the start tags, the body, and
+    /// the end tags - innermost first, one comment each, or all in one comment
+    Nest { start: Place, tags: Vec<TagSrc>, body: Vec<GNode>, end: Place, ends_together: bool },
     /// Markdown: a list item whose continuation holds the given nodes (html comments indented by two spaces)
     MdListItem(Vec<GNode>),
 }
@@ -469,6 +472,43 @@ impl<'a> W<'a> {
                 }
                 self.md_in_list = was;
                 self.buf.push_str(self.nl);
+            }
+            GNode::Nest { start, tags, body, end, ends_together } => {
+                let mut at: Vec<((usize, usize), (usize, usize))> = Vec::new();
+                let rendered: Vec<String> = tags.iter().map(|t| t.render()).collect();
+                let (_, shi) = self.comment(start, |w| {
+                    for (k, t) in rendered.iter().enumerate() {
+                        if k > 0 {
+                            w.buf.push(' ');
+                        }
+                        let ts = w.pos();
+                        w.buf.push_str(t);
+                        let p = w.pos();
+                        at.push((ts, (p.0, p.1 - 1)));
+                    }
+                });
+                let cs = pos_at(&self.buf, shi);
+                let first = self.blocks.len();
+                for (k, t) in tags.iter().enumerate() {
+                    self.blocks.push(ExpBlock { attrs: t.map(), ts: at[k].0, te: at[k].1, clo: shi, chi: 0, cs, ce: (0, 0), depth: depth + k });
+                }
+                for c in body {
+                    self.node(c, depth + tags.len());
+                }
+                if *ends_together {
+                    let n = tags.len();
+                    let (elo, _) = self.comment(end, move |w| w.buf.push_str(&vec!["</block>"; n].join(" ")));
+                    for k in 0..n {
+                        self.blocks[first + k].chi = elo;
+                        self.blocks[first + k].ce = pos_at(&self.buf, elo);
+                    }
+                } else {
+                    for k in (0..tags.len()).rev() {
+                        let (elo, _) = self.comment(end, |w| w.buf.push_str("</block>"));
+                        self.blocks[first + k].chi = elo;
+                        self.blocks[first + k].ce = pos_at(&self.buf, elo);
+                    }
+                }
             }
             GNode::Blk(b) => {
                 let tag = b.tag.render();
